@@ -256,6 +256,22 @@ def sibling_eval(cfg):
 # --------------------------------------------------------------------------- explore
 
 
+# --------------------------------------------------------------------------- (i) aliases of one file under real hash seeds
+
+def alias_cfgs(tier):
+    return [(kind, hs) for kind in ("hardlink", "symlink") for hs in range(4 if tier == "quick" else 8)]
+
+
+def alias_eval(cfg):
+    kind, hs = cfg
+    files = {"app/handlers.py": GEN + b"y = set([1])\n", "app/other.py": GEN, "legacy/handlers_v1.py": (kind, "app/handlers.py" if kind == "hardlink" else "../app/handlers.py"),
+             "zz/handlers_copy.py": (kind, "app/handlers.py" if kind == "hardlink" else "../app/handlers.py")}
+    obs = drive.run_cli(drive.Job(files=files, argv=["{dir}", "--codemod-include", "pixee:python/use-generator,pixee:python/use-set-literal"]), hashseed=str(hs))
+    if obs.error:
+        raise core.HarnessError(obs.error)
+    return outcome_of(obs)
+
+
 # --------------------------------------------------------------------------- (g) many siblings (project size)
 
 CROWD_TARGETS = ["app.py", "vendor/app.py", "node_modules/pkg/app.py", "third_party/lib/app.py", "static/js/app.py", "ignored/app.py", ".cache/app.py"]
@@ -475,6 +491,16 @@ def explore(tier, seed):
         if nout > 1:
             cands[f"race|{cm}|outcome-depends-on-interleaving"] = ({"kind": "codemod-race", "codemod": cm, "n_seeds": ns, "choices": alt},
                                                                   f"{nout} distinct outcomes over {n} schedules (<= 1 preemption, {pts} points) of {cm} on {ns} of its seeds and a file of generic constructs")
+    # (i) several names of one file (hard links, symlinks): same outcome under every hash seed
+    acfgs = alias_cfgs(tier)
+    ares = drive.pmap("cmverif.checks.c11:alias_eval", acfgs)
+    by_kind = {}
+    for (kind, hs), h in zip(acfgs, ares):
+        by_kind.setdefault(kind, {}).setdefault(h, []).append(hs)
+    for kind, outs in by_kind.items():
+        if len(outs) != 1:
+            cands.setdefault(f"hashseed|{kind}-aliases|outcome-depends-on-hash-seed", ({"kind": "aliases", "alias": kind, "seeds": sorted(hs for v in outs.values() for hs in v)},
+                             f"a project in which one file has three names ({kind}s): hash seeds grouped by outcome {sorted(outs.values())}"))
     # (g) many siblings
     gcfgs = crowd_cfgs(tier)
     gres = drive.pmap("cmverif.checks.c11:crowd_eval", gcfgs)
@@ -515,6 +541,7 @@ def explore(tier, seed):
         "rglob_orders": rglob_cov,
         "sibling_independence": {"codemods": len(scfgs), "runs": sib_runs, "file_outcomes_changed_by_codemod": sib_changed, "subsets": "full set + singletons of 3 files" if tier == "quick" else "all non-empty subsets of 4 files"},
         "per_codemod_races": race_cov,
+        "file_aliases_under_hash_seeds": {k: {"seeds": sum(len(v) for v in o.values()), "distinct_outcomes": len(o)} for k, o in by_kind.items()},
         "many_siblings": {"targets": CROWD_TARGETS, "sibling_counts": CROWD_SIZES, "per_pipeline": crowd_cov, "rule": "the outcome (bytes, changesets) of every target file is the same with 0, 30 and 700 unrelated files in 200-character directories"},
         "replay_divergence": divergence,
         "rule": "schedule exploration: stateless DFS, executions run to completion, every schedule with <= b preemptions; one outcome (tree + results) required. Other dimensions: every order of the seam's answer; one outcome required.",
@@ -554,6 +581,11 @@ def replay(rp):
     if k == "hashseed-cli":
         outs = {hash_eval_cli((rp["selection"], hs))[0] for hs in range(4)}
         return (len(outs) == 1), f"{len(outs)} distinct outcomes over PYTHONHASHSEED 0..3"
+    if k == "aliases":
+        outs = {}
+        for hs in rp["seeds"]:
+            outs.setdefault(alias_eval((rp["alias"], hs)), []).append(hs)
+        return (len(outs) == 1), f"hash seeds grouped by outcome: {sorted(outs.values())}"
     if k == "codemod-race":
         drv = f"codemod:{rp['n_seeds']}:{rp['codemod']}"
         _, h1, _ = c11a.run_once(drv, rp["choices"], "calls")
